@@ -93,6 +93,8 @@ def run_property(pid, tier="quick", seed=0):
         if r["error"]:
             if r["error"].startswith("unsupported"):
                 undecided.append({"case": r["case"], "why": r["error"]})
+                if r["canary"]:
+                    canary_ok[r["case"]] = None      # the code under the canary changed shape: undecided, not a failure
             else:
                 crashes.append({"case": r["case"], "why": r["error"]})
         if r["paths"] < r["expect_paths_min"] and not r["error"]:
@@ -116,10 +118,11 @@ def run_property(pid, tier="quick", seed=0):
         if r["canary"] and r["case"] not in canary_ok:
             canary_ok.setdefault(r["case"], False)
     for k, ok in canary_ok.items():
-        if not ok:
+        if ok is False:
             crashes.append({"case": k, "why": "canary obligation was NOT refuted: the pipeline cannot refute"})
 
     discharged = 0
+    replay_budget = [int(os.environ.get("VF_REPLAY_BUDGET", "30"))]
     discharged_modulo_known = []
     for name, o in sorted(by_obl.items()):
         if not o["bad"]:
@@ -147,6 +150,9 @@ def run_property(pid, tier="quick", seed=0):
                     rec["replay_builder_error"] = repr(e)
             confirmed = None
             tried = []
+            replay_budget[0] -= 1
+            if replay_budget[0] < 0:
+                reqs = []      # native replays are capped per run; the violation is still reported
             for req in reqs:
                 out = native(req)
                 tried.append({"request": req, "result": out})
@@ -157,7 +163,8 @@ def run_property(pid, tier="quick", seed=0):
                        "path": rec["path"], "model": rec.get("model"), "extra": rec.get("extra"),
                        "path_condition": rec.get("pc"), "vc_smt2": rec.get("smt2"),
                        "native_replay": confirmed, "native_attempts": tried[:16],
-                       "repo": loader.repo_head(), "outside_known_findings": rec.get("outside_excuses")}
+                       "repo": loader.repo_head(), "outside_known_findings": rec.get("outside_excuses"),
+                       "replay_builder_error": rec.get("replay_builder_error")}
             path = write_replay(pid, name, payload)
             violations.append((path, confirmed is not None, name))
         else:
@@ -245,7 +252,7 @@ def run_property(pid, tier="quick", seed=0):
         "checker_cmd": "./vf check %s --tier %s" % (pid, tier),
         "trusted_base": plan.trusted_base,
         "paths_explored": paths_total, "feasibility_queries": queries,
-        "deductive_cases": len(plan.cases), "canaries_refuted": sum(1 for v in canary_ok.values() if v),
+        "deductive_cases": len(plan.cases), "canaries_refuted": sum(1 for v in canary_ok.values() if v is True),
         "backends": backends, "solver_time_s": round(solver_secs, 3), "slowest_query_s": round(slowest, 3),
         "functions_under_contract": functions,
         "discharged_modulo_known_findings": discharged_modulo_known,
